@@ -56,6 +56,17 @@ pub fn tamper_proof(
     if spec.is_null() {
         return (p.clone(), Value::Null);
     }
+    if let Some(list) = spec.as_array() {
+        // several tamper operations applied one after the other
+        let mut cur = p.clone();
+        let mut infos = Vec::new();
+        for sp in list {
+            let (q, i) = tamper_proof(&cur, sp, params, idx);
+            cur = q;
+            infos.push(i);
+        }
+        return (cur, Value::Array(infos));
+    }
     let mut bytes = p.to_bytes();
     let x = bytes[0] as usize;
     let op = spec["op"].as_str().unwrap_or("");
@@ -65,8 +76,13 @@ pub fn tamper_proof(
     match op {
         "scalar_add_delta" => {
             let s = scalar_of(&bytes[off..off + 32]);
-            let d = env::sym_scalar(&format!("delta_{}_{}", idx, spec["name"].as_str().unwrap_or("0")), "delta");
-            let t = s + d;
+            let dname = if spec["shared"].as_bool().unwrap_or(false) {
+                format!("delta_shared_{}", spec["name"].as_str().unwrap_or("0"))
+            } else {
+                format!("delta_{}_{}", idx, spec["name"].as_str().unwrap_or("0"))
+            };
+            let d = env::sym_scalar(&dname, "delta");
+            let t = if spec["neg"].as_bool().unwrap_or(false) { s - d } else { s + d };
             bytes[off..off + 32].copy_from_slice(t.as_bytes());
             info["delta"] = env::scalar_id(&d);
         },
@@ -246,14 +262,23 @@ pub fn run_adversarial(cfg: &Value) -> Value {
         for j in 0..m {
             match mc["promises"].get(j).cloned().unwrap_or(Value::Null) {
                 Value::String(s) if s == "sym" => {
-                    // symbolic promise: a concrete stand-in that fits the bit length
+                    // symbolic promise: a concrete stand-in that fits the bit length, distinct from every other stand-in
                     let maxv: u64 = if sn >= 64 { u64::MAX } else { (1u64 << sn) - 1 };
-                    let mut conc = 9 + (i * 17 + j * 5) as u64;
-                    if conc > maxv || [sn as u64, m as u64, sx as u64, cap as u64, 16, 32, 64].contains(&conc) {
-                        conc = maxv;
+                    let reserved = [sn as u64, m as u64, sx as u64, cap as u64, 0, 1, 2, 3, 4, 5, 6, 8, 16, 32, 64];
+                    let mut conc = 3u64.min(maxv);
+                    let mut registered = false;
+                    let mut cand = maxv;
+                    for _ in 0..64 {
+                        if cand < 7 {
+                            break;
+                        }
+                        if !reserved.contains(&cand) && env::register_u64(&format!("p_{}_{}", i, j), "promise", cand, json!({"member":i,"j":j})) {
+                            conc = cand;
+                            registered = true;
+                            break;
+                        }
+                        cand -= 1;
                     }
-                    let registered =
-                        conc >= 7 && env::register_u64(&format!("p_{}_{}", i, j), "promise", conc, json!({"member":i,"j":j}));
                     promises.push(Some(conc));
                     pinfo.push(json!({"p": conc.to_string(), "p_sym": registered}));
                 },
